@@ -60,20 +60,20 @@ Section Carrier.
   Proof.
     intros H. unfold a_epus_srv, ann, vec. apply qsum_map_zero. intros s Hs.
     apply steps_inv in Hs as (t & ->). unfold s_srv. cbn [fst].
-    unfold has_srv, x, mk_ctx in H. cbn [cx_list] in H.
+    unfold x in H. rewrite has_srv_mk in H.
     destruct v; cbn [c_srv col_at c_acs c_cal c_ref c_ven c_ilu]; try reflexivity; now apply colsum_absent.
   Qed.
 
   Lemma so_src_step_out pr c j : so_src (step_out pr lm c) j = used_src_f (fmatch lm c) pr c j.
   Proof. destruct j; reflexivity. Qed.
 
-  Lemma absent_src_col j t : has_src x j = false -> c_src (col_at (cx_list x) t) j = 0.
-  Proof. unfold has_src. intros H. destruct j; cbn; now apply colsum_absent. Qed.
+  Lemma absent_src_col j t : has_src x j = false -> c_src (col_at (filter (has_carrier cr) data) t) j = 0.
+  Proof. unfold x. rewrite has_src_mk. intros H. destruct j; cbn; now apply colsum_absent. Qed.
 
   Lemma prio_has_both : cx_prio x = true -> has_src x EL_INSITU = true /\ has_src x EL_COGEN = true.
   Proof.
-    unfold x, mk_ctx, has_src, prio_of. cbn [cx_prio cx_list cx_cr].
-    destruct cr; cbn; try discriminate. intros H. apply andb_true_iff in H as [H1 H2].
+    unfold x. rewrite !has_src_mk. unfold mk_ctx, prio_of. cbn [cx_prio].
+    destruct cr; cbn [priorities andb forallb]; try discriminate. intros H. apply andb_true_iff in H as [H1 H2].
     apply andb_true_iff in H2 as [H2 _]. split; assumption.
   Qed.
 
@@ -83,7 +83,7 @@ Section Carrier.
     intros H.
     assert (U : forall s, In s (cx_steps x) -> s_psrc s j = 0 /\ s_used_src s j = 0).
     { intros s Hs. apply steps_inv in Hs as (t & ->).
-      pose proof (absent_src_col j t H) as Z. change (cx_list x) with (filter (has_carrier cr) data) in Z.
+      pose proof (absent_src_col j t H) as Z.
       unfold s_psrc, s_used_src. cbn [fst snd]. split; [exact Z|].
       rewrite so_src_step_out. unfold used_src_f. fold x.
       destruct (cx_prio x) eqn:P.
@@ -220,7 +220,7 @@ Section Building.
       rewrite (bal_ctx b Hb) in *. unfold a_used_src_srv, ann, vec. apply qsum_map_zero. intros s Hs.
       unfold s_used_src_srv, f_us.
       assert (E : c_srv (fst s) v = 0).
-      { apply steps_inv in Hs as (t & ->). cbn [fst]. unfold has_srv, mk_ctx in H. cbn [cx_list] in H.
+      { apply steps_inv in Hs as (t & ->). cbn [fst]. rewrite has_srv_mk in H.
         destruct v; cbn; try reflexivity; now apply colsum_absent. }
       rewrite E. destruct (qltb _ _); unfold Qcdiv; ring. }
     rewrite !Z. rewrite (qsum_map_sum5 (fun v b => a_used_src_srv (bc_ctx b) j v)). apply qsum_map_ext.
